@@ -72,6 +72,14 @@ def handle : Handler := fun j a => do
   if !decoy.isEmpty then a := a.violationSig "C10:statement-sent-to-unregistered-host" s!"{decoy} in {j.compress}"
   if !selfSrc.isEmpty then a := a.violationSig "C10:server-pointed-at-itself" j.compress
   if !mw.isEmpty then a := a.violationSig "C10:recorded-master-changed-by-repair" j.compress
+  -- C04 / C11: after the pass — whatever failed in it — a host that is marked for recovery is not in the published list
+  -- (the mark is written after the host has been taken out of the list)
+  let markedAfter := (jStrList j "recovery_after").toOption.getD []
+  let listedAfter := (jStrList j "active_after").toOption.getD []
+  for h in markedAfter do
+    if listedAfter.contains h && h != master then
+      a := a.violationSig "C04:host-marked-for-recovery-left-in-the-published-list" s!"{h}: marked {markedAfter}, list {listedAfter} in {j.compress}"
+      a := a.violationSig "C11:marked-host-in-published-active-list" s!"{h}: marked {markedAfter}, list {listedAfter} in {j.compress}"
   -- the configuration of a replica is reset at most `max_attempts` times and never twice within the cooldown, counted on
   -- the statements the server executed (whether or not the rest of the attempt succeeded) since the host's repair
   -- bookkeeping was last started
